@@ -417,7 +417,8 @@ pub fn run_mom(cfg: &MomCfg) -> MomOut {
     // one multi-asset momentum run in four uses the last of twelve assets
     let wide12 = cfg.multi && cfg.seed % 4 == 0;
     let spec = AgentSpec { kind: 'M', asset: if wide12 { 11 } else { 1 }, f: vec!["100".into(), cfg.n.to_string(), cfg.tick.to_string(), cfg.p_cancel.clone(), "3".into(),
-        cfg.decay.clone(), cfg.demand.clone(), cfg.scale.clone(), cfg.ratio.clone(), "0".into(), "1".into()] };
+        // (one run in three quotes with the heavy-tailed price distribution of the project's documentation, sigma = 10)
+        cfg.decay.clone(), cfg.demand.clone(), cfg.scale.clone(), cfg.ratio.clone(), "0".into(), if cfg.seed % 3 == 0 { "10".into() } else { "1".into() }] };
     let r = catch_unwind(AssertUnwindSafe(|| {
         if !cfg.multi {
             let mut env: Env = Env::new(0, cfg.tick, 1000, true);
